@@ -4,6 +4,7 @@ package main
 
 import (
 	"bytes"
+	"strings"
 	"fmt"
 	"github.com/google/pprof/internal/transport"
 	"io"
@@ -154,6 +155,60 @@ func c01DriverProto(p *profile.Profile) (out Term) {
 
 // c01AbsURLFiles is the oracle for Go's URL parser used by the driver's unsourceMappings: the
 // mapping file names that url.Parse accepts as absolute URLs (and that carry no volume name).
+// c01GzSame builds a large, highly redundant profile and compares what Parse returns for its
+// compressed and its uncompressed serialization.
+func c01GzSame(kind string, n int) (out Term) {
+	defer func() {
+		if r := recover(); r != nil {
+			out = L(S("panic"), S(fmt.Sprint(r)))
+		}
+	}()
+	f := &profile.Function{ID: 1, Name: "rec", SystemName: "rec", Filename: "rec.go"}
+	m := &profile.Mapping{ID: 1, Start: 0x1000, Limit: 0x900000, File: "/bin/rec", HasFunctions: true}
+	l := &profile.Location{ID: 1, Mapping: m, Address: 0x1010, Line: []profile.Line{{Function: f, Line: 7}}}
+	p := &profile.Profile{SampleType: []*profile.ValueType{{Type: "samples", Unit: "count"}, {Type: "cpu", Unit: "nanoseconds"}},
+		Function: []*profile.Function{f}, Mapping: []*profile.Mapping{m}, Location: []*profile.Location{l}}
+	switch kind {
+	case "deep-recursion":
+		st := make([]*profile.Location, n)
+		for i := range st {
+			st[i] = l
+		}
+		p.Sample = []*profile.Sample{{Location: st, Value: []int64{1, 10}}}
+	case "identical-samples":
+		for i := 0; i < n; i++ {
+			p.Sample = append(p.Sample, &profile.Sample{Location: []*profile.Location{l, l}, Value: []int64{1, 10}})
+		}
+	case "long-comment":
+		p.Comments = []string{strings.Repeat("a", n)}
+		p.Sample = []*profile.Sample{{Location: []*profile.Location{l}, Value: []int64{1, 10}}}
+	case "many-locations":
+		for i := 1; i < n; i++ {
+			p.Location = append(p.Location, &profile.Location{ID: uint64(i + 1), Mapping: m, Address: 0x1010 + uint64(i)*16, Line: []profile.Line{{Function: f, Line: 7}}})
+		}
+		p.Sample = []*profile.Sample{{Location: p.Location, Value: []int64{1, 10}}}
+	}
+	var gz, raw bytes.Buffer
+	if err := p.Write(&gz); err != nil {
+		return L(S("write-err"), S(err.Error()))
+	}
+	if err := p.WriteUncompressed(&raw); err != nil {
+		return L(S("write-err"), S(err.Error()))
+	}
+	q1, err1 := profile.Parse(bytes.NewReader(gz.Bytes()))
+	q2, err2 := profile.Parse(bytes.NewReader(raw.Bytes()))
+	if err1 != nil || err2 != nil {
+		return L(S("parse-err"), S(fmt.Sprint(err1)), S(fmt.Sprint(err2)), Z(int64(gz.Len())), Z(int64(raw.Len())))
+	}
+	if q1.String() != q2.String() {
+		return L(S("ok"), S("differ"))
+	}
+	if len(q1.Sample) != len(p.Sample) || len(q1.Sample[0].Location) != len(p.Sample[0].Location) || len(q1.Location) != len(p.Location) {
+		return L(S("ok"), S("truncated"))
+	}
+	return L(S("ok"), S("same"))
+}
+
 func c01AbsURLFiles(p *profile.Profile) Term {
 	var out []string
 	seen := map[string]bool{}
@@ -597,6 +652,17 @@ func runC01(c *Ctx) {
 		}
 		c.Case("concurrent-ser", L(S("ser"), inC), obsC, true, "op:ser", "concurrent:copy")
 	}
+	// 1b'. compression is transparent whatever the size and redundancy of the profile: Parse(Write(p)) and
+	// Parse(WriteUncompressed(p)) give the same profile for serializations that compress extremely well
+	// (one deep stack of a single location, many identical samples, a huge run of one character) - the
+	// shapes a decompression limit, a buffer-size heuristic or a streaming reader would trip over
+	for _, sh := range []struct {
+		kind string
+		n    int
+	}{{"deep-recursion", 200000}, {"identical-samples", 100000}, {"long-comment", 3000000}, {"many-locations", 60000}, {"deep-recursion", 1000}} {
+		c.Case("gzip-transparent", L(S("gzsame"), S(sh.kind), Z(int64(sh.n))), c01GzSame(sh.kind, sh.n), true, "op:gzsame", "gz:"+sh.kind)
+	}
+
 	// 1c. pprof -proto through the driver, re-read: every sample keeps its frames (names, files, lines,
 	// columns, addresses), values and labels
 	for i := 0; i < c.Budget(120, 4000); i++ {
